@@ -1,5 +1,6 @@
 import InTotoModel.Lemmas.VerifySpec
 import InTotoModel.Lemmas.Fuel
+import InTotoModel.Lemmas.InspectOrder
 import InTotoModel.Props.Scenario
 /-
   The pipeline model computes the specification `Spec/Verify.lean` - soundness *and* completeness of
@@ -215,5 +216,74 @@ theorem c14_specification_depth_bound_is_no_limit (env : Env K) (path : List Str
     accepts env (fuel + extra) path b keys dir name = accepts env fuel path b keys dir name := by
   rw [← okPart_verify_eq_accepts env idO idO_valid, ← okPart_verify_eq_accepts env idO idO_valid,
     verify_fuel_enough env idO idO_valid path b keys dir name fuel hf extra]
+
+end InToto.VerifySpec
+
+namespace InToto.VerifySpec
+open InToto InToto.Verify InToto.Rules InToto.Threshold
+
+variable {K : Type}
+
+/-! ### C03 inside the pipeline: which links the rules of an inspection are decided against -/
+
+/-- C03 (the rules of inspections, inside a whole verification): when verification succeeds, the rules of
+    every inspection held on ONE table, and that table holds - next to the steps' representatives - the
+    link of every inspection of the layout: of one listed later as of one listed earlier.  A MATCH rule
+    of an inspection may therefore refer to any of them. -/
+theorem c03_inspection_rules_are_decided_over_all_inspection_links {env : Env K} {ord : Ord} (hord : ord.Valid)
+    {fuel : Nat} {path : List Str} {b : Block K} {keys : List K} {dir : Dir K} {name : Str} {out : Link}
+    (h : (verify env ord (fuel + 1) path b keys dir name).1 = .ok out) :
+    ∃ (L : Layout K) (table : List (Str × Link)), b.signed = .layout L ∧
+      rulesHold table (L.inspect.map inspItem) = true ∧
+      ((L.inspect.map Insp.name).Nodup →
+        ∀ i ∈ L.inspect, ∃ l, env.run path i = some (0, l) ∧ lookup i.name table = some l) := by
+  obtain ⟨L, _, reps, insp, hb, _, _, _, _, _, _, _, _, hi, hr, _⟩ :=
+    ((c02_success_iff_every_clause_holds env ord hord fuel path b keys dir name out).mp h).clauses
+  exact ⟨L, insp.reverse ++ reps, hb, hr, fun hnd => inspection_links_all_in_table hi hnd⟩
+
+/-- C03 / C13 (the inspections are a set as far as the decision goes): two signed layouts that differ in
+    nothing but the order in which they list their (distinctly named) inspections - and that the owners
+    have signed alike - are accepted alike, with the same summary, under every iteration order. -/
+theorem c03_decision_does_not_depend_on_the_order_inspections_are_listed (env : Env K) (ord ord' : Ord)
+    (hord : ord.Valid) (hord' : ord'.Valid) (fuel : Nat) (path : List Str) (b b' : Block K) (L : Layout K)
+    (insps' : List Insp) (keys : List K) (dir : Dir K) (name : Str)
+    (hb : b.signed = .layout L) (hb' : b'.signed = .layout { L with inspect := insps' })
+    (hp : L.inspect.Perm insps') (hnd : (L.inspect.map Insp.name).Nodup)
+    (hsig : ownersSigned env b keys = ownersSigned env b' keys) (out : Link) :
+    (verify env ord (fuel + 1) path b keys dir name).1 = .ok out ↔
+      (verify env ord' (fuel + 1) path b' keys dir name).1 = .ok out := by
+  rw [c02_success_iff_every_clause_holds env ord hord, c02_success_iff_every_clause_holds env ord' hord',
+    accepted_iff_inspectionsHold, accepted_iff_inspectionsHold]
+  constructor
+  · rintro ⟨L0, links, reps, h1, h2, h3, h4, h5, h6, h7, h8, h9, h10⟩
+    rw [hb] at h1; cases h1
+    exact ⟨{ L with inspect := insps' }, links, reps, hb', hsig ▸ h2, h3, h4, h5, h6, h7, h8, h9,
+      (inspectionsHold_perm (L := L) hp hnd).mp h10⟩
+  · rintro ⟨L0, links, reps, h1, h2, h3, h4, h5, h6, h7, h8, h9, h10⟩
+    rw [hb'] at h1; cases h1
+    exact ⟨L, links, reps, hb, hsig.symm ▸ h2, h3, h4, h5, h6, h7, h8, h9,
+      (inspectionsHold_perm (L := L) hp hnd).mpr h10⟩
+
+end InToto.VerifySpec
+
+namespace InToto.VerifySpec
+open InToto InToto.Verify
+
+/-- non-vacuity of the two C03 pipeline theorems: a layout whose first inspection refers, with a decisive
+    MATCH rule, to the inspection listed after it is accepted (kernel-checked), the same layout with the
+    two inspections the other way round is accepted with the same summary - here obtained from the theorem,
+    not by evaluation - and with the other inspection absent it is refused -/
+theorem c03_match_from_a_later_inspection_is_honoured :
+    (verify Scenario.env Scenario.idOrd 2 [] Scenario.blockLater [0] Scenario.dir "final".toList).1 = .ok Scenario.summaryLink ∧
+    (verify Scenario.env Scenario.revOrd 2 [] Scenario.blockEarlier [0] Scenario.dir "final".toList).1 = .ok Scenario.summaryLink ∧
+    accepts Scenario.env 2 [] Scenario.blockAlone [0] Scenario.dir "final".toList = none := by
+  refine ⟨Scenario.verifies_match_from_later_inspection, ?_, ?_⟩
+  · refine (c03_decision_does_not_depend_on_the_order_inspections_are_listed Scenario.env Scenario.idOrd Scenario.revOrd
+      Scenario.idOrd_valid Scenario.revOrd_valid 1 [] Scenario.blockLater Scenario.blockEarlier Scenario.layoutLater
+      Scenario.layoutEarlier.inspect [0] Scenario.dir "final".toList rfl rfl ?_ (by decide) (by decide) _).mp
+      Scenario.verifies_match_from_later_inspection
+    exact List.perm_append_comm (l₁ := [Scenario.checkInsp]) (l₂ := Scenario.layout.inspect)
+  · rw [← okPart_verify_eq_accepts Scenario.env Scenario.idOrd Scenario.idOrd_valid, okPart_verify_eq_verifyC,
+      Scenario.fails_without_the_other_inspection]
 
 end InToto.VerifySpec
